@@ -99,16 +99,16 @@ IsStrict == Ev.a \in Strict
 (* diagnosis of a rejected line: which variables differ, and both values *)
 Diag(p) ==
   /\ PrintT(<<"DIAG line", l, Ev.a>>)
-  /\ (gca' = [avail |-> p.gca.avail, key |-> p.gca.key] \/ PrintT(<<"DIAG gca spec", gca'>>))
-  /\ (equip' = UnEquip(p.equip) \/ PrintT(<<"DIAG equip spec", equip', "impl", UnEquip(p.equip)>>))
-  /\ (pkidx' = UnSparse(p.pkidx) \/ PrintT(<<"DIAG pkidx spec", pkidx', "impl", UnSparse(p.pkidx)>>))
-  /\ (bans' = UnBans(p.bans) \/ PrintT(<<"DIAG bans spec", bans', "impl", UnBans(p.bans)>>))
-  /\ (offset' = p.offset \/ PrintT(<<"DIAG offset spec", offset', "impl", p.offset>>))
-  /\ (live' = UnLive(p.live) \/ PrintT(<<"DIAG live spec", live', "impl", UnLive(p.live)>>))
-  /\ (impact' = UnImpact(p.impact) \/ PrintT(<<"DIAG impact spec", impact', "impl", UnImpact(p.impact)>>))
-  /\ (archive' = UnArchive(p.archive) \/ PrintT(<<"DIAG archive spec", archive', "impl", UnArchive(p.archive)>>))
-  /\ (migr' = UnMigr(p.migr) \/ PrintT(<<"DIAG migr spec", migr', "impl", UnMigr(p.migr)>>))
-  /\ (~HasDisk(p) \/ disk' = UnDisk(p.disk) \/ PrintT(<<"DIAG disk spec", disk', "impl", UnDisk(p.disk)>>))
+  /\ (IF gca' = [avail |-> p.gca.avail, key |-> p.gca.key] THEN TRUE ELSE PrintT(<<"DIAG gca spec", gca'>>))
+  /\ (IF equip' = UnEquip(p.equip) THEN TRUE ELSE PrintT(<<"DIAG equip spec", equip', "impl", UnEquip(p.equip)>>))
+  /\ (IF pkidx' = UnSparse(p.pkidx) THEN TRUE ELSE PrintT(<<"DIAG pkidx spec", pkidx', "impl", UnSparse(p.pkidx)>>))
+  /\ (IF bans' = UnBans(p.bans) THEN TRUE ELSE PrintT(<<"DIAG bans spec", bans', "impl", UnBans(p.bans)>>))
+  /\ (IF offset' = p.offset THEN TRUE ELSE PrintT(<<"DIAG offset spec", offset', "impl", p.offset>>))
+  /\ (IF live' = UnLive(p.live) THEN TRUE ELSE PrintT(<<"DIAG live spec", live', "impl", UnLive(p.live)>>))
+  /\ (IF impact' = UnImpact(p.impact) THEN TRUE ELSE PrintT(<<"DIAG impact spec", impact', "impl", UnImpact(p.impact)>>))
+  /\ (IF archive' = UnArchive(p.archive) THEN TRUE ELSE PrintT(<<"DIAG archive spec", archive', "impl", UnArchive(p.archive)>>))
+  /\ (IF migr' = UnMigr(p.migr) THEN TRUE ELSE PrintT(<<"DIAG migr spec", migr', "impl", UnMigr(p.migr)>>))
+  /\ (IF ~HasDisk(p) \/ disk' = UnDisk(p.disk) THEN TRUE ELSE PrintT(<<"DIAG disk spec", disk', "impl", UnDisk(p.disk)>>))
 
 (* A state changing event with a post state: A is the specification's      *)
 (* action (it determines every variable of vars).                          *)
@@ -229,10 +229,10 @@ TRecvReport ==
   /\ PostSane(Ev.post)
   /\ KeepAux
 
-TUDPRead == Ev.a = "UDPRead" /\ UNCHANGED vars /\ KeepAux
+TUDPRead == Ev.a \in {"UDPRead", "DriverNote"} /\ UNCHANGED vars /\ KeepAux
 
 TRegister ==
-  /\ Ev.a = "Register"
+  /\ Ev.a = "Register" /\ pend.kind # "batch"
   /\ Apply(Register(Ev.k, UnSig(Ev.sig)))
   /\ pend' = [kind |-> "reg", ok |-> RegisterOK(Ev.k, UnSig(Ev.sig))]
   /\ UNCHANGED <<rot, atag>>
@@ -325,8 +325,81 @@ InvByName(n) ==
 
 InvCheck ==
   IF l = DiagLine
-  THEN \A n \in InvSel : InvByName(n) \/ PrintT(<<"DIAG invariant fails", n>>)
+  THEN \A n \in InvSel : IF InvByName(n) THEN TRUE ELSE PrintT(<<"DIAG invariant fails", n>>)
   ELSE \A n \in InvSel : InvByName(n)
+
+(* /equipment as decoded by the driver *)
+TEquipmentResp ==
+  /\ Ev.a = "EquipmentResp"
+  /\ ("Authorize" \in Strict => Ev.status = 200 /\ UnEquip(Ev.equip) = equip)
+  /\ UNCHANGED vars /\ KeepAux
+
+(* the implementation's own consistency check, run by the driver *)
+TCheckInv ==
+  /\ Ev.a = "CheckInv"
+  /\ ("Authorize" \in Strict => Ev.panic = "")
+  /\ UNCHANGED vars /\ KeepAux
+
+(* a batch of concurrent registrations: replies are counted, not matched *)
+TBatchBegin ==
+  /\ Ev.a = "BatchBegin"
+  /\ pend' = [kind |-> "batch", n |-> 0]
+  /\ UNCHANGED <<vars, rot, atag>>
+
+TRegisterInBatch ==
+  /\ Ev.a = "Register" /\ pend.kind = "batch"
+  /\ Apply(Register(Ev.k, UnSig(Ev.sig)))
+  /\ pend' = [pend EXCEPT !.n = @ + (IF RegisterOK(Ev.k, UnSig(Ev.sig)) THEN 1 ELSE 0)]
+  /\ UNCHANGED <<rot, atag>>
+
+TBatchEnd ==
+  /\ Ev.a = "BatchEnd"
+  /\ ("Register" \in Strict => pend.kind = "batch" /\ Ev.n200 = pend.n)
+  /\ pend' = NoPend
+  /\ UNCHANGED <<vars, rot, atag>>
+
+(* authorized servers: the hook fires under gcaServers.mu on every path that *)
+(* passed the signature check                                               *)
+TAuthorizeServer ==
+  /\ Ev.a = "AuthorizeServer"
+  /\ IF IsStrict
+     THEN /\ AuthorizeServer(UnServer(Ev.as))
+          /\ Valid(UnSig(Ev.as.sig), gca.key)
+          /\ (l = DiagLine \/ servers' = UnServers(Ev.servers))
+          /\ (IF l # DiagLine THEN TRUE ELSE PrintT(<<"DIAG servers spec", servers', "impl", UnServers(Ev.servers)>>))
+     ELSE /\ servers' = UnServers(Ev.servers)
+          /\ UNCHANGED <<now, up, gca, equip, pkidx, bans, offset, live, impact,
+                         archive, migr, disk, seen>>
+  /\ pend' = [kind |-> "authsrv"]
+  /\ UNCHANGED <<rot, atag>>
+
+TAuthorizeServerResp ==
+  /\ Ev.a = "AuthorizeServerResp"
+  /\ ("AuthorizeServer" \in Strict =>
+        IF pend.kind = "authsrv" THEN Ev.status = 200
+        ELSE Ev.status # 200 /\ ~Valid(UnSig(Ev.as.sig), gca.key))
+  /\ pend' = NoPend
+  /\ UNCHANGED <<vars, rot, atag>>
+
+TServersResp ==
+  /\ Ev.a = "ServersResp"
+  /\ ("AuthorizeServer" \in Strict => Ev.status = 200 /\ UnServers(Ev.servers) = servers)
+  /\ UNCHANGED vars /\ KeepAux
+
+TMigrate ==
+  /\ Ev.a = "Migrate"
+  /\ (IsStrict => MigrationOK(UnMig(Ev.m)))
+  /\ Apply(Migrate(UnMig(Ev.m)))
+  /\ pend' = [kind |-> "migrate"]
+  /\ UNCHANGED <<rot, atag>>
+
+TMigrateResp ==
+  /\ Ev.a = "MigrateResp"
+  /\ ("Migrate" \in Strict =>
+        IF pend.kind = "migrate" THEN Ev.status = 200
+        ELSE Ev.status # 200 /\ ~MigrationOK(UnMig(Ev.m)))
+  /\ pend' = NoPend
+  /\ UNCHANGED <<vars, rot, atag>>
 
 TNext ==
   /\ l <= Len(Trace)
@@ -337,6 +410,8 @@ TNext ==
      \/ TRegister \/ TRegisterResp \/ TAuthorize \/ TAuthorizeResp
      \/ TImpactList \/ TImpactSet
      \/ TQueryStats \/ TStatsResp
+     \/ TEquipmentResp \/ TCheckInv \/ TBatchBegin \/ TRegisterInBatch \/ TBatchEnd
+     \/ TAuthorizeServer \/ TAuthorizeServerResp \/ TServersResp \/ TMigrate \/ TMigrateResp
   /\ InvCheck
 
 TInit ==
